@@ -243,7 +243,9 @@ func (r *c20Runner) run(cap int, ops []c20Op, record bool, tag string) bool {
 	var dq [2]*gws.VerifDeque
 	var seq [2]c20Seq
 	calls := make([]c20Call, 0, len(ops))
-	r.current.Store(func() any { return map[string]any{"calls": c20Describe(cap, calls), "next": "the call after the last one listed (or the observation after it) did not return"} })
+	r.current.Store(func() any {
+		return map[string]any{"calls": c20Describe(cap, calls), "next": "the call after the last one listed (or the observation after it) did not return"}
+	})
 	fail := func(what string) bool {
 		switch r.mode {
 		case 1:
